@@ -1,5 +1,5 @@
-_ALLOW = "null_distinct,null_multi_key,null_lit,group_noagg,key_expr,agg_expr,cast,concat,inner_limit"
-_OPTS = {"prop": "C01", "strata": "all", "neutral": "1", "allow": _ALLOW}
+_ALLOW = "null_distinct,null_multi_key,null_lit,group_noagg,key_expr,agg_expr,cast,concat,inner_limit,mixed_width,not_in,join_residual,multi_rel_key"
+_OPTS = {"prop": "C01", "strata": "all", "neutral": "1", "joins": "1", "allow": _ALLOW}
 ENTRY = {
     "level": "proof",
     "families": [fam("SQL", 400, 20000, opts={"quick": _OPTS, "thorough": dict(_OPTS, sizes="tiny,small,small,mid")})],
